@@ -73,10 +73,38 @@ def build_program(r):
             targets.append(['fld', ['var', vn], [f'fb{i}']])
             watch.append((['fld', ['var', vn], [f'fa{i}']], fields[0][1]))
             watch.append((['fld', ['var', vn], [f'fc{i}']], fields[2][1]))
+    dep = None
+    if n >= 2 and r.random() < 0.3:
+        # targets that depend on each other: INPUT i%, a(i%)  /  INPUT c%, c%
+        if r.random() < 0.6:
+            t1 = tys[1]
+            lb = r.randint(0, 2)
+            name = f'dp1{t1}'
+            main.append({'k': 'dim', 'shared': False, 'name': name,
+                         'bounds': [[['lit', '%', lb], ['lit', '%', lb + 2]]], 'ty': t1, 'as': False})
+            tys[0] = '%'
+            targets[0] = ['var', 'ix%']
+            targets[1] = ['idx', name, [['var', 'ix%']]]
+            for j in range(3):
+                watch.append((['idx', name, [['lit', '%', lb + j]]], t1))
+            dep = {'kind': 'index', 'lb': lb}
+        else:
+            tys[1] = tys[0]
+            targets[0] = ['var', 'dup' + tys[0]]
+            targets[1] = ['var', 'dup' + tys[0]]
+            dep = {'kind': 'dup'}
     watch.append((['var', 'sa%'], '%'))
     watch.append((['var', 'sb$'], '$'))
+    done = set()
     for lv, t in [(x, tys[i]) for i, x in enumerate(targets)] + watch:
-        main.append({'k': 'let', 'lv': lv, 'e': ['lit', t, INIT[t]]})
+        key = repr(lv)
+        if key in done or (dep and dep['kind'] == 'index' and lv == targets[1]):
+            continue
+        done.add(key)
+        v = INIT[t]
+        if dep and dep['kind'] == 'index' and lv == ['var', 'ix%']:
+            v = dep['lb']          # a valid subscript before the INPUT, too
+        main.append({'k': 'let', 'lv': lv, 'e': ['lit', t, v]})
     if handler:
         main.append({'k': 'onerr', 'mode': 'goto', 'label': 'hnd'})
     pk = r.choice(('none', 'semi', 'comma', 'lead'))
@@ -100,10 +128,12 @@ def build_program(r):
                                {'k': 'print', 'items': [[['lit', '$', '<L>'], ';'], [['var', 'lc%'], '']]}]})
         main.append({'k': 'call', 'name': 'si', 'args': targets, 'style': r.choice(('call', 'bare'))})
     main.append({'k': 'print', 'items': [[['lit', '$', '<A>'], '']]})
-    for lv in targets:
+    shown = []
+    for lv, t in [(x, tys[i]) for i, x in enumerate(targets)] + watch:
+        if dep and dep['kind'] == 'index' and lv == targets[1]:
+            continue               # its three elements are all in the watch list
         main.append({'k': 'print', 'items': [[lv, '']]})
-    for lv, t in watch:
-        main.append({'k': 'print', 'items': [[lv, '']]})
+        shown.append([lv, t])
     main.append({'k': 'gosub', 'label': 'gz'})
     main.append({'k': 'print', 'items': [[['call', 'fz%', [['lit', '%', 3]]], '']]})
     main.append({'k': 'print', 'items': [[['lit', '$', '<D>'], '']]})
@@ -125,7 +155,8 @@ def build_program(r):
     prog = {'types': types, 'main': main, 'procs': procs}
     number_stmts(prog)
     spec = {'types': tys, 'prompt': inp['prompt'], 'psep': inp['psep'], 'lead': inp['semi'],
-            'place': place, 'handler': handler,
+            'place': place, 'handler': handler, 'dep': dep,
+            'targets': targets, 'shown': shown,
             'watch': [[t, INIT[t]] for _, t in watch]}
     return prog, spec
 
@@ -202,6 +233,12 @@ def build(params):
     rr = stream(s, 'responses')
     nrej = rr.choice((0, 1, 1, 2, 3, 4))
     resp, values = make_responses(rr, spec['types'], nrej)
+    if spec.get('dep') and spec['dep']['kind'] == 'index':
+        lb = spec['dep']['lb']
+        values[0] = rr.choice((lb + 1, lb + 2, lb + 2))
+        fs = resp[-1][0].split(',')
+        fs[0] = str(values[0])
+        resp[-1][0] = ','.join(fs)
     rc = stream(s, 'config')
     return {'property': PROP, 'run_seed': s, 'source': 'gen:input', 'text': text, 'ast': prog,
             'spec': spec, 'responses': resp, 'values': values,
@@ -331,9 +368,12 @@ def check_run(scn, co, plan, res):
         if kinds[0] in ('F1', 'F4') and spec['handler'] and out['halt'] == 'INSTRUCTION':
             # handler armed: INPUT was abandoned, the tail ran: targets keep
             # their initial values
-            got = _tail_values(tp, len(tys))
-            if got is not None and plan[0].get('in_input'):
+            if spec.get('shown') is not None:
+                exp = expected_shown(spec, None)
+            else:
                 exp = [[CELL[t], expected_value(t, INIT[t])] for t in tys]
+            got = _tail_values(tp, len(exp))
+            if got is not None and plan[0].get('in_input'):
                 if got != exp:
                     bad('C18:assigned-after-failure', {'expected': exp, 'got': got})
         res.count('faulted_runs_checked')
@@ -374,15 +414,21 @@ def check_run(scn, co, plan, res):
         return
     # --- assignment ---------------------------------------------------------
     tp = typed_prints(sim.io_events)
-    got = _tail_values(tp, len(tys) + len(spec['watch']))
-    exp = [[CELL[t], expected_value(t, v)] for t, v in zip(tys, scn['values'])]
-    exp += [[CELL[t], expected_value(t, v)] for t, v in spec['watch']]
+    if spec.get('shown') is not None:
+        exp = expected_shown(spec, scn['values'])
+        got = _tail_values(tp, len(exp))
+        ntargets = sum(1 for lv, t in spec['shown'] if lv in spec['targets'])
+    else:
+        got = _tail_values(tp, len(tys) + len(spec['watch']))
+        exp = [[CELL[t], expected_value(t, v)] for t, v in zip(tys, scn['values'])]
+        exp += [[CELL[t], expected_value(t, v)] for t, v in spec['watch']]
+        ntargets = len(tys)
     if got is None:
         bad('C18:later-divergence', {'what': 'tail prints missing', 'prints': tp[-12:]})
         return
-    if got[:len(tys)] != exp[:len(tys)]:
-        bad('C18:wrong-assignment', {'expected': exp[:len(tys)], 'got': got[:len(tys)],
-                                     'line': scn['responses'][-1][0]})
+    if got[:ntargets] != exp[:ntargets] or (spec.get('dep') and got != exp):
+        bad('C18:wrong-assignment', {'expected': exp, 'got': got,
+                                     'line': scn['responses'][-1][0], 'dependent': spec.get('dep')})
         return
     if got != exp:
         bad('C18:other-location-changed', {'expected': exp, 'got': got})
@@ -393,6 +439,37 @@ def check_run(scn, co, plan, res):
         bad('C18:later-divergence', {'what': 'GOSUB/RETURN/FUNCTION after INPUT', 'tail': tail[-60:]})
         return
     res.count('accepted_histories_checked')
+
+
+def expected_shown(spec, values):
+    """Sequential model: fields are assigned to the targets in order (a later
+    target's subscript sees an earlier target's new value); everything else
+    keeps its initial value."""
+    env = {}
+
+    def key(lv):
+        if lv[0] == 'var':
+            return ('v', lv[1])
+        if lv[0] == 'idx':
+            i = lv[2][0]
+            iv = i[2] if i[0] == 'lit' else env.get(('v', i[1]))
+            return ('e', lv[1], iv)
+        return ('f', repr(lv))
+    dep = spec.get('dep')
+    for (lv, t) in spec['shown']:
+        env.setdefault(key(lv), expected_value(t, INIT[t]))
+    if dep and dep['kind'] == 'index':
+        env[('v', 'ix%')] = dep['lb']
+    if values is not None:
+        # targets passed to a SUB by reference are located when the call is
+        # made, i.e. with the old value of the subscript variable
+        early = None
+        if dep and dep['kind'] == 'index' and spec['place'] == 'sub':
+            early = key(spec['targets'][1])
+        for n, (lv, t, v) in enumerate(zip(spec['targets'], spec['types'], values)):
+            k = early if (early is not None and n == 1) else key(lv)
+            env[k] = expected_value(t, v)
+    return [[CELL[t], env[key(lv)]] for lv, t in spec['shown']]
 
 
 def _tail_values(tp, n):
